@@ -100,6 +100,11 @@ def query_event(ev, s, o, h, op, shape, arg, g, method, dtype_variant):
         else:
             flat = np.array([g.thr(t) for t in arg], dtype=float)
         arr = flat.reshape(tuple(shape))
+        if len(shape) >= 2 and dtype_variant % 3 == 1:
+            arr = np.asfortranarray(arr)                       # same values, column-major memory layout
+        elif len(shape) >= 2 and dtype_variant % 3 == 2:
+            arr = np.ascontiguousarray(np.moveaxis(arr, 0, -1))
+            arr = np.moveaxis(arr, -1, 0)                      # a non-contiguous view (axes moved)
         if len(shape) == 0 and dtype_variant % 2:
             arr = float(flat[0])                               # a Python scalar instead of a 0-d array
         keep = np.array(arr, copy=True)
@@ -234,6 +239,21 @@ def run(ctx: core.Ctx):
         events += evs
         cases.append({"object": o0, "steps": st, "cid": len(cases)})
         ctx.nontrivial.add(json.dumps(steps))
+    # independent histories: one call with a 40 x 30 array (1200 thresholds in no particular order) per
+    # rate method / cm, on two small objects
+    rnd = np.random.RandomState(ctx.seed + 77)
+    big_ops = ["cm", "tpr", "fnr", "tnr", "fpr", "topr", "tonr", "far", "pointwise_cm"]
+    for k in range(len(big_ops) if ctx.tier == "thorough" else 4):
+        op = big_ops[(k + ctx.seed) % len(big_ops)]
+        o0 = {"pos": sorted(int(x) for x in rnd.randint(0, 4, 3)), "neg": sorted(int(x) for x in rnd.randint(0, 4, 2)),
+              "ep": int(rnd.randint(0, 3)), "en": int(rnd.randint(0, 3)),
+              "sc": ["pos", "neg"][k % 2], "ec": ["pos", "neg"][(k // 2) % 2]}
+        if op == "pointwise_cm":
+            o0["ep"] = o0["en"] = 0
+        st = [["Query", 1, op, [40, 30], [int(x) for x in rnd.randint(-3, 12, 1200)]]]
+        evs, steps = replay_behaviour(o0, st, len(cases), ids, ctx.seed)
+        events += evs
+        cases.append({"object": o0, "steps": st, "cid": len(cases)})
     ctx.sample([e for e in events if e["cid"] == 0][:3])
     ctx.judge("Trace_C10", events, cases=cases, batch=1500)
     # growth of the specification beyond the listed properties: the documented error paths
